@@ -29,6 +29,7 @@ func genArithCase(rt *rapid.T, prop, op string, d DT, form, via, mode string, la
 		c.B = &b
 	} else {
 		c.Scalar = genCodes(rt, 1, lo, hi, 15, "s")[0]
+		c.ScT = via == "pkg" && rapid.IntRange(0, 3).Draw(rt, "sct") == 0
 	}
 	avoidF39(c)
 	if inF25(c) {
